@@ -1,6 +1,7 @@
 #!/bin/sh
 # tools/revert.sh <commit-grep> <check ids...>: temporarily reverts one fix: commit in /repo's working tree and runs checks
 pat="$1"; shift
+rm -rf /verif/build/evidence.bak /verif/build/replays.bak; cp -r /verif/evidence /verif/build/evidence.bak; cp -r /verif/replays /verif/build/replays.bak 2>/dev/null
 cd /repo || exit 2
 h=$(git log --format=%h -1 --grep="$pat")
 [ -n "$h" ] || { echo "no commit matches"; exit 2; }
@@ -11,3 +12,4 @@ for id in "$@"; do
   (cd /verif && timeout 900 ./check $id quick 2>&1 | grep -E "^VIOLATION|^KNOWN|^INCONCL|^C[0-9]+ quick|CROSSCHECK" | cut -c1-200)
 done
 git checkout -- .
+rm -rf /verif/evidence /verif/replays; mv /verif/build/evidence.bak /verif/evidence; mv /verif/build/replays.bak /verif/replays 2>/dev/null; true
